@@ -195,6 +195,12 @@ func variantsOf(text string, rng *rand.Rand, kind string) map[string]string {
 		}
 	}
 	out["unknown-tags"] = b.String()
+	// a very long unknown tag (session data, a data: URI) right after the header, i.e. before the
+	// line that tells the two kinds of playlist apart; sizes around the usual buffer sizes
+	if len(lines) > 1 {
+		n := []int{4000, 4096, 4097, 5000, 70000}[rng.Intn(5)]
+		out["long-unknown-tag"] = lines[0] + "\n#EXT-X-SESSION-DATA:DATA-ID=\"x\",VALUE=\"" + strings.Repeat("Zz09", n/4) + "\"\n" + strings.Join(lines[1:], "\n") + "\n"
+	}
 	// attribute order shuffled + unknown attributes
 	var sb strings.Builder
 	for _, l := range lines {
